@@ -40,7 +40,18 @@ struct Serial { int v; Serial() : v(g_next_serial++) {} };
 static thread_local Serial t_serial;
 
 // ---------------------------------------------------------------- element kinds
-struct Pod { ll key; int idx; };
+// Every element type has a *poisoned* operator< / operator> / operator== that orders by a scrambled
+// function of the original index — inconsistent with every comparator the harness passes (key <, key >,
+// key>>1).  tlx code that forgets to pass `comp` on (std::lower_bound(first, last, v) etc.) still compiles
+// and then produces a wrong arrangement that the oracle reports with a concrete input.
+static inline unsigned poison(long x) { return static_cast<unsigned>(x + 1) * 2654435761u; }
+
+struct Pod {
+    ll key; int idx;
+    friend bool operator<(const Pod& a, const Pod& b) { return poison(a.idx) < poison(b.idx); }
+    friend bool operator>(const Pod& a, const Pod& b) { return poison(a.idx) > poison(b.idx); }
+    friend bool operator==(const Pod& a, const Pod& b) { return a.idx == b.idx; }
+};
 
 struct Track {
     const void* base = nullptr;   // the caller's range while a sort runs
@@ -93,6 +104,10 @@ struct Elem {
         if (Own) { delete heap; heap = nullptr; }
         g_tr.destroyed.fetch_add(1, std::memory_order_relaxed);
     }
+    // poisoned default order (see above)
+    friend bool operator<(const Elem& a, const Elem& b) { return poison(a.idx) < poison(b.idx); }
+    friend bool operator>(const Elem& a, const Elem& b) { return poison(a.idx) > poison(b.idx); }
+    friend bool operator==(const Elem& a, const Elem& b) { return a.idx == b.idx; }
 };
 
 enum Cmp { LT, GT, HALF };
